@@ -11,7 +11,7 @@ import (
 )
 
 func init() {
-	register(&Rule{ID: "C15.ROOT", Min: 2, Doc: "the path matched against `paths` globs is relative to the project root, not to the working directory", Run: runC15Root})
+	register(&Rule{ID: "C15.ROOT", Min: 1, Doc: "the path matched against `paths` globs is relative to the project root, not to the working directory", Run: runC15Root})
 	register(&Rule{ID: "C15.ABSJOIN", Min: 2, Doc: "a path is joined to the working directory only when it is not absolute", Run: runC15AbsJoin})
 	register(&Rule{ID: "C15.PURE", Min: 4, Doc: "filterErrors is an order-preserving filter without side effects", Run: runC15Pure})
 	register(&Rule{ID: "C15.EXIT", Min: 5, Doc: "exit status table of Command.Main: 2 flag error, 0 help/version/no diagnostics, 3 fatal, 1 diagnostics", Run: runC15Exit})
